@@ -4,7 +4,7 @@
    (c_to_bytes CAP v) -> (ok #bytes) | (exc) | (oob)      (c_ser v) -> (ok #bytes) | (exc)
    (c_from_buffer #bytes) -> (ok v RESTLEN) | (none)       (c_dict_eq v v) -> 0|1                   *)
 From Coq Require Import NArith ZArith List String Bool.
-From Pq Require Import Base.Bytes Extract.Sx Impl.CThrift.
+From Pq Require Import Base.Bytes Extract.Sx Thrift.Compact Impl.CThrift.
 Import ListNotations.
 Open Scope string_scope.
 
@@ -88,7 +88,7 @@ Definition h_c_from_buffer (a : list sx) : sx :=
   match a with
   | [b] => match as_bytes b with
            | Some b => match from_buffer b with
-                       | Some (v, r) => SL [S_ "ok"; sx_of_pv v; sN (lenN r)]
+                       | Some (v, r) => SL [S_ "ok"; sx_of_pv v; sN (len r)]
                        | None => SL [S_ "none"]
                        end
            | None => err "args"
